@@ -41,6 +41,11 @@ def rand_plane(rng, N, shape, cls, px, z, allow_single, need_shape=False):
         return ox.plane(cls, amp=rng.choice((1, 2)), opd=opd if (np.ndim(opd) == 0 or rng.random() < 0.6) else int(opd[0, 0]), px=px, z=z), False
     if kind == 'arr-nomask':
         return ox.plane(cls, amp=amp_arr * sup, opd=opd, px=px, z=z), False
+    if kind == 'arr-2d' and rng.random() < 0.25:
+        # a mask that transmits everything, written as a scalar (1, True, 1.0): the plane is as large as its sampled attributes
+        if rng.random() < 0.5 or np.ndim(opd) == 0:
+            return ox.plane(cls, amp=amp_arr, opd=opd, mask=np.ones((m, n), dtype=int), px=px, z=z, mask_scalar=rng.choice((1, True, 1.0))), False
+        return ox.plane(cls, amp=rng.choice((1, 2)), opd=opd, mask=np.ones((m, n), dtype=int), px=px, z=z, mask_scalar=rng.choice((1, True, 1.0))), False
     if kind == 'arr-2d':
         return ox.plane(cls, amp=amp_arr, opd=opd, mask=sup.astype(int), px=px, z=z), False
     if kind == 'arr-2d-sub':
